@@ -27,6 +27,7 @@ Env0 == <<
     D("MyDate", "named", "MyDate", TRUE, TimeTE, TRUE, <<>>, <<>>, <<>>),
     D("Stamp", "named", "Stamp", TRUE, TimeTE, FALSE, <<>>, <<>>, <<>>),
     D("RawBytes", "named", "RawBytes", TRUE, Sl(B("byte")), FALSE, <<>>, <<>>, <<>>),
+    D("Digest", "named", "Digest", TRUE, Sl(B("uint8")), FALSE, <<>>, <<>>, <<>>),
     D("IntList", "named", "IntList", TRUE, Sl(B("int")), FALSE, <<>>, <<>>, <<>>),
     D("Names", "named", "Names", TRUE, Sl(B("string")), FALSE, <<>>, <<>>, <<>>),
     D("Triple", "named", "Triple", TRUE, Ar(3, B("int32")), FALSE, <<>>, <<>>, <<>>),
@@ -57,7 +58,7 @@ Env0 == <<
 
 Basics == {B(n) : n \in {"bool", "int", "int8", "int16", "int32", "int64", "uint8", "uint16", "uint", "float64", "float32", "string"}}
 Refs == {R(Env0[i].key) : i \in 1..Len(Env0)}
-Containers == {Sl(e) : e \in {B("int"), B("string"), B("bool"), B("float64"), B("int16"), B("byte"), R("Kind"), R("Color"), R("Data"), R("Label")}}
+Containers == {Sl(e) : e \in {B("int"), B("string"), B("bool"), B("float64"), B("int16"), B("byte"), B("uint8"), R("Kind"), R("Color"), R("Data"), R("Label")}}
               \cup {Ar(2, B("bool")), Ar(4, B("int")), Ar(2, R("Kind"))}
               \cup {[k |-> "map"], [k |-> "union"], TimeTE, Sl(Sl(B("int")))}
 KindsU == Basics \cup Refs \cup Containers
